@@ -343,6 +343,99 @@ def denote_cmdline(info, ref, rootsets, ast):
 
 
 # ---------------------------------------------------------------------------
+def spec_expected(info, ref, rootsets, ast, outmode):
+    """stdout the documented semantics predicts for one location list (None when not evaluated), and the
+    known-finding key that applies to it"""
+    cs, ns, st = denote_cmdline(info, ref, rootsets, ast)
+    phys_kw = (not all_logical_input(ast)) and uses_kw_range(ast)
+    keyp = "calc-physical-keyword-range" if phys_kw else None
+    cs1 = ref.set1("singlify " + cs.text()) if st["single"] else cs
+    om = outmode[0]
+    exp = None
+    if om == "set":
+        res = ns if st["no"] else cs1
+        exp = (ref.fmt(res) or {}).get(st["cof"])
+        if exp is not None:
+            exp += "\n"
+    elif om == "largest":
+        r = ref.ask("largest " + cs1.text())
+        m = re.match(r"largest (-?\d+)(.*)", r[0]) if r else None
+        if m and int(m.group(1)) >= 0 and st["lo"]:
+            toks = m.group(2).split()
+            sep = st["sep"] if st["sep"] is not None else " "
+            exp = sep.join(toks) + "\n"
+    elif om in ("I", "N"):
+        r = ref.ask("covering %d %s %s" % (outmode[2], cs1.text(), ns.text()))
+        if r and r[0].startswith("covering") and "?" not in r[0]:
+            ents = [x.split(":") for x in r[0].split()[1:]]
+            if om == "N":
+                exp = "%d\n" % len(ents)
+            elif not st["oo"]:
+                sep = st["sep"] if st["sep"] is not None else ","
+                exp = sep.join((e[0] if st["lo"] else ("-1" if e[1] == "4294967295" else e[1])) for e in ents) + "\n"
+    return exp, keyp
+
+
+WAITING = "Waiting for locations to process on stdin...\n"
+
+
+def check_stdin_case(ctx, info, ref, rootsets, kind, arg, tool, case, rng, model_cases):
+    """hwloc-calc reading its locations from stdin: per-line spec, model, and line k == the same tokens on
+    the command line (the per-line state is reset)"""
+    args, text = case["args"], case["stdin"]
+    rc, out, err = tool(args, stdin=text.encode("latin-1"))
+    model_cases.append((args, text, rc, out))
+    ctx.count("stdin|%s|%s|%s|%s" % (arg, args, text, out), nontrivial=True, kind="calc-stdin-" + case["out"][0],
+              sample={"topology": arg, "args": args, "stdin": text, "stdout": out})
+    if rc != 0:
+        return
+    quiet = any(it[1] in ("-q", "--quiet") for it in case["opts"])
+    body = out if quiet else (out[len(WAITING):] if out.startswith(WAITING) else None)
+    rtxt = replay_text(kind, arg, "hwloc-calc", args, "stdin: %s\n" % esc(text))
+    if body is None:
+        ctx.violation("stdin:waiting-line:" + "-".join(esc(a) for a in args)[:60], "stdin mode without the 'Waiting for locations' line: %r" % out[:80], rtxt)
+        return
+    # what each line must print
+    exps = []
+    keyp = None
+    try:
+        for la in case["lines"]:
+            if la is None:
+                raise NoSpec("stdin line with tokens outside the grammar")
+            e, k = spec_expected(info, ref, rootsets, case["opts"] + la, case["out"])
+            keyp = keyp or k
+            exps.append(e)
+    except NoSpec as e:
+        ctx.bump("nospec-stdin:" + str(e)[:40])
+        exps = None
+    if exps is not None and all(e is not None for e in exps):
+        ctx.bump("spec-evaluated-stdin-" + case["out"][0])
+        exp = "".join(exps)
+        if body != exp:
+            got, want = body.split("\n"), exp.split("\n")
+            k = next((i for i in range(min(len(got), len(want))) if got[i] != want[i]), min(len(got), len(want)))
+            ctx.violation(keyp or ("spec:calc-stdin:" + "-".join(esc(a) for a in args)[:60] + ":line%d" % (k + 1)),
+                          "hwloc-calc in stdin mode: line %d (%r) printed %r, the documented semantics of that line alone gives %r (options %r, all lines %r)"
+                          % (k + 1, case["line_texts"][k] if k < len(case["line_texts"]) else "", got[k] if k < len(got) else None,
+                             want[k] if k < len(want) else None, args, case["line_texts"]), rtxt)
+            return
+    elif exps is not None:
+        ctx.bump("spec-skipped-stdin-" + case["out"][0])
+    # statelessness on the tool itself: one line, alone on the command line
+    cands = [i for i, la in enumerate(case["lines"]) if la and not any(t.startswith("-") for t in case["line_texts"][i].split())]
+    segs = body.split("\n")
+    if cands and case["out"][0] != "largest" and len(segs) == len(case["lines"]) + 1:
+        i = rng.choice(cands)
+        toks = case["line_texts"][i].split()
+        rc2, out2, _ = tool(args + toks)
+        if rc2 == 0 and not out2.startswith(WAITING):
+            ctx.bump("cross-stdin-line-vs-cmdline")
+            if out2 != segs[i] + "\n":
+                ctx.violation("cross:stdin-line:" + "-".join(esc(a) for a in args + toks)[:90],
+                              "line %d of stdin (%r) printed %r but the same locations on the command line print %r (options %r; earlier lines %r)"
+                              % (i + 1, case["line_texts"][i], segs[i], out2, args, case["line_texts"][:i]), rtxt)
+
+
 def esc(s):
     return "".join(c if (33 <= ord(c) < 127 and c != "%") else "%%%02x" % ord(c) for c in s) or "%"
 
@@ -449,7 +542,7 @@ def hang_class(args):
     return None
 
 
-def check_calc_topology(ctx, kind, arg, ncmd, nmal, rng, corpus_cmds=()):
+def check_calc_topology(ctx, kind, arg, ncmd, nmal, rng, corpus_cmds=(), nstdin=0):
     """everything about hwloc-calc on one topology"""
     run = ctx.run
     calc = ctx.tools["hwloc-calc"]
@@ -477,6 +570,20 @@ def check_calc_topology(ctx, kind, arg, ncmd, nmal, rng, corpus_cmds=()):
         cmds = []
         for c in corpus_cmds:
             c = dict(c)
+            if "stdin" in c:
+                # a hand-written stdin case: options in args, one location list per line
+                texts = c["stdin"].split("\n")
+                if texts and texts[-1] == "":
+                    texts = texts[:-1]
+                r0 = args_to_ast(info, ref, c["args"])
+                lines = []
+                for t in texts:
+                    r = args_to_ast(info, ref, c["args"] + t.split()) if r0 else None
+                    lines.append([it for it in r[0] if it[0] == "loc"] if r else None)
+                case = {"args": c["args"], "opts": [it for it in r0[0] if it[0] == "opt"] if r0 else [], "lines": lines,
+                        "line_texts": texts, "stdin": c["stdin"], "out": r0[1] if r0 else ("set",)}
+                check_stdin_case(ctx, info, ref, rootsets, kind, arg, tool, case, rng, model_cases)
+                continue
             if not hang_class(c["args"]):
                 r = args_to_ast(info, ref, c["args"])
                 if r:
@@ -489,46 +596,18 @@ def check_calc_topology(ctx, kind, arg, ncmd, nmal, rng, corpus_cmds=()):
         for cmd in cmds:
             args = cmd["args"]
             rc, out, err = tool(args)
-            model_cases.append((args, b"", rc, out))
+            model_cases.append((args, None, rc, out))
             ctx.count("%s|%s|%s" % (arg, args, out), nontrivial=bool(out.strip()) and out.strip() not in ("0x0", "0"),
                       sample={"topology": arg, "args": args, "stdout": out, "rc": rc}, kind="calc-" + cmd["out"][0])
             if "ast" not in cmd:
                 continue
             # ---- spec on the tool's output
             try:
-                cs, ns, st = denote_cmdline(info, ref, rootsets, cmd["ast"])
+                exp, keyp = spec_expected(info, ref, rootsets, cmd["ast"], cmd["out"])
             except NoSpec as e:
                 ctx.bump("nospec:" + str(e)[:40])
                 continue
-            phys_kw = (not all_logical_input(cmd["ast"])) and uses_kw_range(cmd["ast"])
-            keyp = "calc-physical-keyword-range" if phys_kw else None
-            if st["single"]:
-                cs1 = ref.set1("singlify " + cs.text())
-            else:
-                cs1 = cs
             om = cmd["out"][0]
-            exp = None
-            if om == "set":
-                res = ns if st["no"] else cs1
-                exp = (ref.fmt(res) or {}).get(st["cof"])
-                if exp is not None:
-                    exp += "\n"
-            elif om == "largest":
-                r = ref.ask("largest " + cs1.text())
-                m = re.match(r"largest (-?\d+)(.*)", r[0]) if r else None
-                if m and int(m.group(1)) >= 0 and st["lo"]:
-                    toks = m.group(2).split()
-                    sep = st["sep"] if st["sep"] is not None else " "
-                    exp = sep.join(toks) + "\n"
-            elif om in ("I", "N"):
-                r = ref.ask("covering %d %s %s" % (cmd["out"][2], cs1.text(), ns.text()))
-                if r and r[0].startswith("covering") and "?" not in r[0]:
-                    ents = [x.split(":") for x in r[0].split()[1:]]
-                    if om == "N":
-                        exp = "%d\n" % len(ents)
-                    elif not st["oo"]:
-                        sep = st["sep"] if st["sep"] is not None else ","
-                        exp = sep.join((e[0] if st["lo"] else ("-1" if e[1] == "4294967295" else e[1])) for e in ents) + "\n"
             if exp is None:
                 ctx.bump("spec-skipped-" + om)
             else:
@@ -551,6 +630,10 @@ def check_calc_topology(ctx, kind, arg, ncmd, nmal, rng, corpus_cmds=()):
                 cross_N_I(ctx, tool, kind, arg, base, G.type_spelling(rng, info, d, ty))
             else:
                 cross_single(ctx, tool, ref, kind, arg, base)
+        # ---- stdin mode
+        for _ in range(nstdin):
+            case = G.gen_stdin_case(rng, info, mem=rng.random() < (0.7 if cpuless else 0.35), hang=hang_class)
+            check_stdin_case(ctx, info, ref, rootsets, kind, arg, tool, case, rng, model_cases)
         # ---- malformed stream: observed only (no crash, exit status by class)
         for _ in range(nmal):
             r = rng.random()
@@ -572,7 +655,7 @@ def check_calc_topology(ctx, kind, arg, ncmd, nmal, rng, corpus_cmds=()):
             ctx.count("%s|%s|%d" % (arg, args, rc), nontrivial=True, kind=cls)
             ctx.bump("%s-exit-%s" % (cls, "0" if rc == 0 else "nonzero"))
             if cls == "malformed-location" or cls == "odd-option":
-                model_cases.append((args, b"", rc, out))
+                model_cases.append((args, None, rc, out))
             if cls == "bad-option" and rc == 0:
                 # an unknown option / a missing option argument / a topology option after a location must be refused
                 if True:
@@ -758,16 +841,26 @@ def cross_single(ctx, tool, ref, kind, arg, base):
 def run_model(ctx, kind, arg, dump_text, cases, tag):
     if not ctx.drv or not cases:
         return
-    path = os.path.join(ctx.tmp, "model-%s.case" % tag)
-    with open(path, "w", encoding="latin-1") as f:
-        f.write(dump_text)
-        for args, stdin, rc, out in cases:
-            f.write("calc %s\n" % " ".join(esc(a) for a in args))
-    rc, out, err = C.sh([ctx.drv, path], timeout=300)
+
+    def run(sub, name, timeout):
+        path = os.path.join(ctx.tmp, "model-%s.case" % name)
+        with open(path, "w", encoding="latin-1") as f:
+            f.write(dump_text)
+            for args, stdin, rc, out in sub:
+                f.write("calc %s%s\n" % (" ".join(esc(a) for a in args), "" if stdin is None else " %%< %s" % esc(stdin)))
+        return C.sh([ctx.drv, path], timeout=timeout)
+    rc, out, err = run(cases, tag, 120)
     if rc != 0:
-        ctx.violation("model-crash:" + tag, "model driver failed rc=%d: %s" % (rc, err.decode(errors="replace")[-800:]),
-                      replay_text(kind, arg, "model", []), no_input=True)
-        return
+        # one case exhausts the model's unary fuels (a bit index in the millions): find it, keep the others
+        outs = []
+        for k, c in enumerate(cases):
+            r1, o1, e1 = run([c], "%s-%d" % (tag, k), 15)
+            if r1 != 0:
+                C.log("[C20] model resource limit on %r stdin=%r (%s)" % (c[0], c[1], tag))
+                outs.append("UNMODELLED 9")
+            else:
+                outs.append(o1.decode("latin-1").split("\n")[0])
+        out = ("\n".join(outs) + "\n").encode("latin-1")
     mlines = out.decode("latin-1").split("\n")
     for (args, stdin, trc, tout), ml in zip(cases, mlines):
         if ml.startswith("UNMODELLED"):
@@ -1232,6 +1325,8 @@ def load_corpus():
             elif line.startswith("args: ") and kind:
                 toks = [unesc(t) for t in line[6:].split(" ") if t != ""]
                 res.append({"file": os.path.basename(p), "kind": kind, "arg": arg, "args": toks})
+            elif line.startswith("stdin: ") and res:
+                res[-1]["stdin"] = unesc(line[7:].strip())       # the text hwloc-calc reads when args name no location
     return res
 
 
@@ -1244,6 +1339,7 @@ def unesc(t):
 def parse_replay(path):
     kind = arg = tool = None
     args = []
+    stdin = None
     for line in open(path, encoding="latin-1"):
         line = line.rstrip("\n")
         if line.startswith("topology: "):
@@ -1252,7 +1348,9 @@ def parse_replay(path):
             tool = line[6:]
         elif line.startswith("args: "):
             args = [unesc(t) for t in line[6:].split(" ") if t != ""]
-    return kind, arg, tool, args
+        elif line.startswith("stdin: "):
+            stdin = unesc(line[7:].strip())
+    return kind, arg, tool, args, stdin
 
 
 def check(run, replay=None):
@@ -1273,8 +1371,10 @@ def check(run, replay=None):
     thorough = run.tier == "thorough"
     try:
         if replay:
-            kind, arg, tool, args = parse_replay(replay)
+            kind, arg, tool, args, rstdin = parse_replay(replay)
             corpus_cmds = [{"args": args, "out": ("replay",)}] if tool in ("hwloc-calc", "model", None) else []
+            if rstdin is not None and corpus_cmds:
+                corpus_cmds[0]["stdin"] = rstdin
             r = check_calc_topology(ctx, kind, arg, 0, 0, rng, corpus_cmds=corpus_cmds)
             if r:
                 run_model(ctx, kind, arg, r[0], r[1], "replay")
@@ -1322,6 +1422,7 @@ def check(run, replay=None):
             topos.append(("xml", p))
         ncmd = 60 if thorough else 16
         nmal = 60 if thorough else 14
+        nstdin = 20 if thorough else 5
         corpus = load_corpus()
         jobs = []
         seeds = [rng.getrandbits(64) for _ in topos]
@@ -1331,8 +1432,8 @@ def check(run, replay=None):
             kind, arg = topos[i]
             r = random.Random(seeds[i])
             tag = "t%d" % i
-            cc = [{"args": c["args"], "out": ("corpus",)} for c in corpus if c["kind"] == kind and c["arg"] == arg]
-            res = check_calc_topology(ctx, kind, arg, ncmd, nmal, r, corpus_cmds=cc)
+            cc = [dict(c, out=("corpus",)) for c in corpus if c["kind"] == kind and c["arg"] == arg]
+            res = check_calc_topology(ctx, kind, arg, ncmd, nmal, r, corpus_cmds=cc, nstdin=nstdin)
             if res:
                 run_model(ctx, kind, arg, res[0], res[1], tag)
             if i % 2 == 0 or thorough:
